@@ -628,7 +628,10 @@ func c15Generate(ctx *Ctx, g *graph, label string) error {
 	getJ(doc["components"].(J), "schemas")["ZzOnly"] = J{"type": "object", "properties": J{"v": J{"type": "string"}}}
 	spec, err := loadDoc(doc)
 	if err != nil {
-		return fmt.Errorf("c15 generate-level document does not load: %v", err)
+		// kin-openapi's loader gives up on some reference cycles depending on the order it meets them ("circular schema
+		// reference not handled"); the graph alone loaded, the extended document does not: nothing to generate from
+		ctx.Res.Count("generate-level:skipped-unloadable")
+		return nil
 	}
 	var o codegen.Configuration
 	o.PackageName = "api"
